@@ -30,6 +30,8 @@ Stbm == { Csi(P2(t, b), <<114>>) : t \in 0..H, b \in 0..(H + 1) } \cup { Csi(P1(
 Modes == { <<27, 91, 52, 104>>, <<27, 91, 52, 108>>, <<27, 91, 63, 55, 104>>, <<27, 91, 63, 55, 108>>, <<27, 91, 63, 54, 57, 104>>, <<27, 91, 63, 54, 57, 108>> }
 EscTok == { <<27, 55>>, <<27, 56>>, <<27, 99>>, <<27, 68>>, <<27, 77>>, <<27, 69>>, <<27, 72>>, <<27, 91, 33, 112>>, <<27, 91, 61, 114>> }
 C0 == { <<10>>, <<13>>, <<12>>, <<8>>, <<9>>, <<127>> }
+\* tab stops: TBC (clear at cursor / all), HTS, CHT, CVT, CBT, DECST8C-like delete-tab, on lists that may be EMPTY
+TabTok == { Csi(P1(n), <<103>>) : n \in {0, 3, 5} } \cup { Csi(<<>>, <<103>>), <<27, 72>>, Csi(<<>>, <<73>>), Csi(P1(2), <<73>>), Csi(<<>>, <<89>>), Csi(<<>>, <<90>>), Csi(P1(1), <<32, 100>>), <<9>> }
 Printable == { <<65>>, <<32>> }
 Lrm == { Csi(P2(a, b), <<115>>) : a \in {1, 2}, b \in {1, W, W + 1} } \cup { Csi(P2(k, n), <<61, 109>>) : k \in 0..3, n \in {0, 1, 2} }
 SlSr == { Csi(P1(n), <<32, 64>>) : n \in {1, 2} } \cup { Csi(P1(n), <<32, 65>>) : n \in {1, 2} }
@@ -53,6 +55,7 @@ Huge == { Csi(b, <<f>>) : b \in Big, f \in {64, 80, 76, 77, 83, 84, 98, 89, 90, 
                  <<27, 91, 63, 54, 57, 104>>, <<10>>, <<65>> }
 Toks == CASE Slice = "huge"    -> Huge
           [] Slice = "cursor"  -> OneParam \cup NoParam \cup Cup \cup C0 \cup Printable \cup EscTok \cup Modes
+          [] Slice = "tabs"    -> TabTok \cup Printable \cup Cup \cup { <<10>>, <<13>>, <<27, 99>> }
           [] Slice = "margins" -> Stbm \cup Lrm \cup SlSr \cup { Csi(P1(n), <<f>>) : n \in {1, 2}, f \in {65, 66, 83, 84, 76, 77} } \cup { <<10>>, <<27, 68>>, <<27, 77>>, <<27, 69>>, <<65>>, <<12>>, <<27, 91, 63, 54, 57, 104>> } \cup Cup
           [] Slice = "content" -> Printable \cup Rect \cup Sgr1 \cup C0 \cup Modes \cup { Csi(P1(n), <<f>>) : n \in {1, 2}, f \in {64, 80, 88, 98, 97, 39, 71} } \cup { Csi(<<>>, <<f>>) : f \in {74, 75, 64} }
           [] Slice = "avatar"  -> Avt \cup Printable \cup { <<10>>, <<13>> } \cup Cup
@@ -95,6 +98,7 @@ Cls(v, lo, hi) == IF v < lo THEN "below" ELSE IF v = lo THEN "first" ELSE IF v <
 RowCls == IF st.rows = <<>> THEN "none" ELSE IF st.y >= Len(st.rows) THEN "norow" ELSE IF Len(st.rows[st.y + 1]) <= st.x THEN "short" ELSE IF Len(st.rows[st.y + 1]) > st.tw THEN "long" ELSE "ok"
 MarginCls == IF st.mtb = <<>> THEN "none" ELSE IF st.mtb[2] < 0 THEN "neg" ELSE IF st.mtb[1] = st.mtb[2] THEN "one" ELSE IF st.mtb[2] >= st.th THEN "big" ELSE "norm"
 LrCls == IF st.mlr = <<>> THEN "none" ELSE IF st.mlr[2] >= st.tw THEN "big" ELSE IF st.mlr[1] >= st.mlr[2] THEN "one" ELSE "norm"
-GenView == << Cls(st.x, 0, st.tw - 1), Cls(st.y, First(st), First(st) + st.th - 1), RowCls, MarginCls, LrCls, st.bh > st.th, st.im, st.aw, st.dm, st.ls, Len(st.rows) > st.lh, st.ca.bg # 0 >>
+TabCls == IF st.tabs = <<>> THEN "none" ELSE IF Len(st.tabs) = 1 THEN "one" ELSE "many"
+GenView == << Cls(st.x, 0, st.tw - 1), Cls(st.y, First(st), First(st) + st.th - 1), RowCls, MarginCls, LrCls, TabCls, st.bh > st.th, st.im, st.aw, st.dm, st.ls, Len(st.rows) > st.lh, st.ca.bg # 0 >>
 Emit == IF hist = <<>> THEN PrintT(<<"ALPHABET", ToJson([toks |-> SetToSeq(Toks)])>>) ELSE PrintT(<<"WITNESS", ToJson([hist |-> hist])>>)
 =============================================================================
